@@ -233,7 +233,7 @@ def register(vc):
             note="every stored observation of the epoch whose (sensor position, target) is first-seen is returned with its sensor's measurement model attached, saved by the engine, and handed to the update job of exactly its target's estimate; exact duplicates are dropped")
 def obs(vc):
     mk = lambda tag, sid, tid, pos: _NS(tag=tag, sensor_id=sid, target_id=tid, pos_x_km=pos[0], pos_y_km=pos[1], pos_z_km=pos[2], measurement=None,
-                                        makeDictionary=lambda: _NS(sensor_id=sid, target_id=tid, julian_date=0))
+                                        makeDictionary=lambda: {"sensor_id": sid, "target_id": tid, "julian_date": 0})  # (a dict, as _DataMixin.makeDictionary returns)
     rows = [mk("a", 10, 1, (1.0, 2.0, 3.0)), mk("dup", 10, 1, (1.0, 2.0, 3.0)), mk("b", 11, 2, (4.0, 5.0, 6.0))]
     queries = []
     vc.install(CE + "@Query", lambda *a: _NS(join=lambda *b: _NS(filter=lambda *c: (queries.append(c), "QUERY")[1])))
